@@ -369,6 +369,31 @@ pub fn s_langid_long_bytes() -> SBoxedStrategy<Vec<u8>> {
         .sboxed()
 }
 
+/// very long variant lists with certain repeats: 20-80 variants from a 12-element pool
+/// (plus the odd generated one), random case / separator masks
+pub fn s_langid_many_variants() -> SBoxedStrategy<Vec<u8>> {
+    const POOL: &[&str] = &["valencia", "1abc", "macos", "1994", "1996", "rozaj", "biske", "nedis", "fonipa", "12345", "abcdefgh", "9zzz"];
+    let one = prop_oneof![
+        9 => proptest::sample::select(POOL.to_vec()).prop_map(|s| s.to_string()),
+        1 => s_variant(),
+    ];
+    (
+        s_language(),
+        proptest::option::weighted(0.5, s_script()),
+        proptest::option::weighted(0.5, s_region()),
+        vec(one, 20..=80),
+        prop_oneof![2 => Just(0u64), 2 => any::<u64>()],
+        prop_oneof![3 => Just(0u64), 1 => any::<u64>()],
+    )
+        .prop_map(|(lang, script, region, variants, cm, sm)| {
+            let id = LangAst { lang, script, region, variants };
+            let mut t = vec![];
+            id.tokens(&mut t);
+            render_tokens(&t, cm, sm)
+        })
+        .sboxed()
+}
+
 /// long locales: a long language identifier followed by many keywords / tfields / private tags
 pub fn s_locale_long_bytes() -> SBoxedStrategy<Vec<u8>> {
     (s_ast(), vec(s_variant(), 4..=10), vec((s_key(), vec(s_value(), 1..=3)), 3..=8), vec(s_private(), 3..=10))
